@@ -110,6 +110,10 @@ _tok('amb_nested_inl2', [Rule('start', [[N('_c'), N('_c')]]), Rule('_c', [[N('x'
 _tok('amb_null', [Rule('start', [[N('o'), A, N('o')]]), Rule('o', [[], [A], [N('o'), N('o2')]]), Rule('o2', [[B]])], ['A', 'B'], {'ambiguous', 'amb'})
 
 
+# a rule of four symbols whose ambiguity lies among the first ones: the ambiguous intermediate node is nested below unambiguous ones
+_tok('amb4', [Rule('start', [[N('a'), N('b'), B, B]]), Rule('a', [[A], [A, A]]), Rule('b', [[A], [A, A]])], ['A', 'B'], {'ambiguous', 'amb', 'cnf_ok'})
+_tok('amb4n', [Rule('start', [[N('a'), N('b'), B, C]]), Rule('a', [[A], []]), Rule('b', [[A], []])], ['A', 'B', 'C'], {'ambiguous', 'amb'})
+
 # a ranged repeat with lower bound 0 above lark's REPEAT_BREAK_THRESHOLD (factored into helper rules by small_factors)
 _tok('rep0big', [Rule('start', [[Rep(A, 0, 51), B]])], ['A', 'B'], {'lalr', 'unamb'})
 
@@ -198,6 +202,11 @@ _txt('meta1', [
 _txt('reptok', [
     Rule('start', [[T('T'), T('X')]]),
 ], [Term('T', ('re', '(?:ab){1,2}'), src='"ab"~1..2'), Term('X', 'b')], tags={'dyn'})
+
+# two alternatives of the start rule cover the same span; ignored text may follow (the completed start item is carried over it)
+_txt('twostart', [
+    Rule('start', [Alt([T('A')], alias='first'), Alt([T('B')], alias='second')]),
+], [Term('A', 'a'), Term('B', ('re', 'a')), Term('SP', ' ')], ignore=['SP'], tags={'ambiguous', 'dyn'})
 
 # anonymous literals whose conventional names (PLUS, COMMA) are taken by user terminals with other patterns
 _txt('anoncollide', [
